@@ -128,17 +128,28 @@ def main():
     except Broken as e:
         print('BROKEN: %s' % e)
         return 2
+    except common.ImplDefect as e:
+        # an object built through the public constructors is unusable: that construction is the failing input
+        f = Failure('oracle', e.case, e.what, None, e.what, 'the property quantifies over policies built by the public '
+                    'constructors; this one cannot even be inspected')
+        f.signature = 'unusable-object'
+        path = common.write_replay(pid, f, seed)
+        print('VIOLATION property=%s replay=%s' % (pid, os.path.relpath(path, common.VERIF)))
+        return 1
     except Exception as e:
         tb = traceback.extract_tb(e.__traceback__)
         inner = tb[-1].filename if tb else ''
         traceback.print_exc()
-        if inner.startswith(os.path.join(common.REPO, 'vakt')):
+        # an object of a vakt class that lacks an attribute the harness reads (AttributeError.obj names the object)
+        vakt_obj = isinstance(e, AttributeError) and \
+            (getattr(type(getattr(e, 'obj', None)), '__module__', '') or '').split('.')[0] == 'vakt'
+        if inner.startswith(os.path.join(common.REPO, 'vakt')) or vakt_obj:
             # the implementation raised where the harness (which passes on the pinned tree) has no reason to expect it:
             # the run cannot be completed, so no input is singled out, but the property is no longer shown to hold
             f = Failure('unproved', {'exception': '%s: %s' % (type(e).__name__, str(e)[:300]),
                                      'raised_in': '%s:%s %s' % (inner, tb[-1].lineno, tb[-1].name),
                                      'traceback': traceback.format_exception(e)[-12:]}, None, None, None,
-                        'correspondence run aborted by an exception inside vakt',
+                        'correspondence run aborted by an exception inside vakt / about an object of a vakt class',
                         text='the correspondence run could not be completed: vakt raised %s in %s (line %s); no failing '
                              'input could be searched for' % (type(e).__name__, tb[-1].name, tb[-1].lineno))
             path = common.write_replay(pid, f, seed)
